@@ -24,7 +24,7 @@ Healthy(o) == Connected(o) /\ ~o.cerr /\ ~o.paused
 
 Obl(o, ev) ==
     LET a == ev.app s == App(o, a) r == Req(o, a) w == Wire(o, a) IN
-    IF ~(ev.how \in {"raise", "return"}) \/ ~r.known \/ r.kind # "http" \/ s.disc > 0 \/ ~Healthy(o)
+    IF ~(ev.how \in {"raise", "return", "self-cancel"}) \/ ~r.known \/ r.kind # "http" \/ s.disc > 0 \/ ~Healthy(o)
        \/ r.rst
     THEN {}
     ELSE (IF ~s.rstart /\ w.heads = 0 THEN {<<"no-500", a>>} ELSE {})
@@ -65,7 +65,7 @@ PStep(p, o, ev, o2) ==
             LET a == ev.app s == App(o, a) IN
             [p EXCEPT !.due = @ \cup Obl(o, ev),
                       !.excAt = IF ev.how = "raise" THEN o.excLogs ELSE @,
-                      !.aborted = IF ev.how \in {"raise", "return"} /\ s.rstart /\ ~s.final
+                      !.aborted = IF ev.how \in {"raise", "return", "self-cancel"} /\ s.rstart /\ ~s.final
                                      /\ Wire(o, a).ends = 0
                                   THEN @ \cup {a} ELSE @]
       [] ev.e = "quiescent" -> [p EXCEPT !.due = {}]
